@@ -8,6 +8,9 @@ def sh(cmd, cwd):
     p = subprocess.run(cmd, shell=True, cwd=cwd, capture_output=True, text=True, timeout=3600)
     return p.returncode, p.stdout + p.stderr
 
+ROOT = os.environ.get("SEED_ROOT", "/tmp/seed")      # where the sub-agents' worktrees are
+OFFSET = int(os.environ.get("SEED_OFFSET", "0"))     # round 2 is stored as <prop>-4..6
+
 def main(prop, ks):
     wt = f"/tmp/seedverify-{prop}"
     sh(f"git -C /repo worktree remove --force {wt}", "/")
@@ -15,11 +18,11 @@ def main(prop, ks):
     assert rc == 0, out
     try:
         for k in ks:
-            src = f"/tmp/seed/{prop}/seed-out/{k}"
+            src = f"{ROOT}/{prop}/seed-out/{k}"
             if not os.path.exists(f"{src}/meta.json"):
                 print(f"{prop}-{k}: no deliverable"); continue
             meta = json.load(open(f"{src}/meta.json"))
-            demo_cmd = meta["demo_cmd"].replace(f"/tmp/seed/{prop}", wt)
+            demo_cmd = meta["demo_cmd"].replace(f"{ROOT}/{prop}", wt)
             if "cd " not in demo_cmd:
                 demo_cmd = f"cd {wt} && {demo_cmd}"
             res = {}
@@ -37,13 +40,14 @@ def main(prop, ks):
             res["c_suite_with_patch"] = out.strip().splitlines()[-1].strip() if out.strip() else f"rc={rc}"
             reset()
             ok = res["a_demo_on_unchanged"] == "pass" and res["b_demo_with_patch"] == "fails" and "319 passed" in res["c_suite_with_patch"]
-            print(f"{prop}-{k}: {'CONFIRMED' if ok else 'REJECTED'} {res} :: {meta.get('title','')[:90]}")
+            print(f"{prop}-{int(k) + OFFSET}: {'CONFIRMED' if ok else 'REJECTED'} {res} :: {meta.get('title','')[:90]}")
             if ok:
-                dst = f"/verif/seeded/{prop}-{k}"
+                dst = f"/verif/seeded/{prop}-{int(k) + OFFSET}"
                 os.makedirs(dst, exist_ok=True)
                 shutil.copy(f"{src}/patch.diff", dst); shutil.copy(f"{src}/demo.diff", dst)
                 meta["confirmed_by_lead"] = res
-                meta["demo_cmd"] = meta["demo_cmd"].replace(f"/tmp/seed/{prop}", "<scratch worktree of /repo>")
+                meta["demo_cmd"] = meta["demo_cmd"].replace(f"{ROOT}/{prop}", "<scratch worktree of /repo>")
+                meta["round"] = 2 if OFFSET else 1
                 meta["how_confirmed"] = "scratch worktree of /repo HEAD: git apply demo.diff -> demo passes; + git apply patch.diff -> demo fails; patch.diff alone -> cargo build --workspace and cargo nextest run --workspace (319 tests) pass"
                 json.dump(meta, open(f"{dst}/meta.json", "w"), indent=1)
     finally:
